@@ -25,6 +25,9 @@ type RecvHistory struct {
 	IDs        []int    `json:"ids"`  // identity of each arrival (duplicates share an id)
 	Orig       []int    `json:"orig"` // position in the sender's stream, -1 after a restart marker
 	ReportAt   []int    `json:"report_at,omitempty"`
+	Conc       string   `json:"conc,omitempty"`      // concurrency case (conc.go): probe | stress-hook | stress-ticker
+	ConcSeed   uint64   `json:"conc_seed,omitempty"` // its own random stream (gaps, start)
+	ConcN      int      `json:"conc_n,omitempty"`    // probe: rounds; stress: packets
 	E2E        string   `json:"e2e,omitempty"` // end-to-end path (e2e.go): client-udp | client-tcp | server-udp | server-tcp
 }
 
@@ -562,11 +565,15 @@ func genRecvHistoryWith(c *corr.Ctx, forceSize int) *RecvHistory {
 
 // Run is the domain entry point.
 func Run(c *corr.Ctx) {
-	c.Rule("arrival histories derived from an ordered sender stream (random start incl. wrap positions) by loss, bounded displacement, duplication, restart, plus loss-free permutations in which no packet arrives before a packet BufferSize or more positions behind it (mode 6; the displacement clause must hold on these); sizes 1..512 (powers of two); reliable and unreliable; a case is non-trivial when it has more than one arrival; distinct = distinct op-line sequences; plus an end-to-end layer (library Client from a scripted raw server, library Server in record mode from a raw publisher, UDP and TCP, BufferSize 64): same generator, every delivered packet must carry the content sent for its sequence number and the application must see what the receiver yields for the history")
+	c.Rule("arrival histories derived from an ordered sender stream (random start incl. wrap positions) by loss, bounded displacement, duplication, restart, plus loss-free permutations in which no packet arrives before a packet BufferSize or more positions behind it (mode 6; the displacement clause must hold on these); sizes 1..512 (powers of two); reliable and unreliable; a case is non-trivial when it has more than one arrival; distinct = distinct op-line sequences; plus an end-to-end layer (library Client from a scripted raw server, library Server in record mode from a raw publisher, UDP and TCP, BufferSize 64): same generator, every delivered packet must carry the content sent for its sequence number and the application must see what the receiver yields for the history; plus a concurrency layer (report() against ProcessPacket2 from another goroutine: deterministic probe through TimeNow, and 10^5-packet stress with forced / ticker reports) with the conservation law over all emitted reports")
 	if c.Replay != nil {
 		var h RecvHistory
 		if err := json.Unmarshal(c.Replay, &h); err != nil {
 			panic(err)
+		}
+		if h.Conc != "" {
+			concRun(c, &h, "replay")
+			return
 		}
 		if h.E2E != "" {
 			env := &e2eEnv{}
@@ -666,4 +673,6 @@ func Run(c *corr.Ctx) {
 	c.Dist("enumerated-small-scope")
 	// end to end: the receiver behind the library's UDP listeners / TCP readers (e2e.go)
 	e2eAll(c)
+	// report generation atomic w.r.t. packet processing: interleaving probe + stress (conc.go)
+	concAll(c)
 }
